@@ -175,6 +175,11 @@ LimbVal18(W, l1, l2, l3, l4, l5, l6, l7, l8, l9, l10, l11, l12, l13, l14, l15, l
 (***************************************************************************)
 \* @type: ({ f: Bool, v: Int }, Bool, Int) => Bool;
 Conf(r, gf, gv) == r.f = gf /\ (~gf => r.v = gv)
+\* Operands are VALUES: an opcode consumes its operands and pushes Res; every other reference to the same integer
+\* (a DUP copy lower on the stack, an alt-stack item, an array element) still denotes the integer it denoted before.
+\* a = the operand, k = the value read from the kept reference after the opcode ran on the real Executor.
+\* @type: (Int, Int) => Bool;
+Kept(a, k) == k = a
 \* bitwise rows: vr is LimbVal18 of the digits TLC computed from the operands' digits (exact result);
 \* it may fall outside the bound (e.g. -(Bound-1) AND -2 = -Bound), then the opcode faults.
 \* @type: (Int, Int, Int, Bool, Int) => Bool;
